@@ -34,9 +34,27 @@ def allowed_errors():
 
 
 def parse_bytes(data):
+    """process(); a document that was refused is refused again when the same instance is asked a
+    second time ('always refused'), one that was accepted is accepted again."""
+    from dznpy.ast import FileContents
     from dznpy.json_ast import DznJsonAst
     with contextlib.redirect_stdout(io.StringIO()):
-        return DznJsonAst(data).process()
+        parser = DznJsonAst(data)
+        try:
+            res = parser.process()
+        except allowed_errors() as first:
+            try:
+                again = parser.process()
+            except allowed_errors():
+                raise first from None
+            raise Fail(f'refused with {type(first).__name__} ({str(first)[:80]}), but a second process() '
+                       f'on the same instance returned {type(again).__name__}', 'refused-then-accepted') \
+                from None
+        again = parser.process()
+        if isinstance(res, FileContents) and not isinstance(again, FileContents):
+            raise Fail('accepted, but a second process() on the same instance returned '
+                       f'{type(again).__name__}', 'accepted-then-other')
+        return res
 
 
 _LAST = [None, None]
